@@ -354,7 +354,8 @@ class HashSeedEngine(Engine):
                 "hits": hits, "profiles": profiles, "categories": ["CatA", "CatB"], "rules": "\n".join(text)}
 
     def _gen_pipeline(self, rng) -> Dict[str, Any]:
-        from sim.world.pipeline import DETECTION_PROFILES, DOMAIN_PROFILES, MAIN_DOMAINS, PFAM_PROFILES, module_layout
+        from sim.world.pipeline import (DETECTION_PROFILES, DOMAIN_PROFILES, MAIN_DOMAINS, PFAM_PROFILES, T2PKS_PROFILES,
+                                        module_layout)
         records = []
         hits = []
         domain_hits = []
@@ -463,6 +464,21 @@ class HashSeedEngine(Engine):
                         if not any(all(other[key] == hit[key] for key in ("cds", "profile", "start", "end"))
                                    for other in pfam_hits):
                             pfam_hits.append(hit)
+        # type II PKS analysis of T2PKS protoclusters (profiles <type>_<function>, classes intersected over genes)
+        t2pks_hits = []
+        anchors = sorted({hit["cds"] for hit in hits if hit["profile"] in ("t2ks", "t2clf")})
+        if anchors and rng.random() < 0.8:
+            extra += ["--enable-t2pks"]
+            by_name = {gene["name"]: gene for record in records for gene in record["genes"]}
+            for name in anchors:
+                aa = sum(e - b for b, e in by_name[name]["parts"]) // 3
+                for _ in range(rng.randint(1, 2)):
+                    start = rng.choice([2, 50])
+                    if start + 45 < aa:
+                        hit = {"cds": name, "profile": rng.choice(T2PKS_PROFILES), "start": start, "end": start + 45,
+                               "bitscore": rng.choice([80, 80, 120]), "evalue": 1e-20}
+                        if not any(o["cds"] == name and o["start"] == start for o in t2pks_hits):
+                            t2pks_hits.append(hit)
         # sideloaded annotations: from the command line (a subregion around named genes, or one explicit subregion)
         sideload_cli: List[str] = []
         plain = [gene for record in records for gene in record["genes"] if len(gene["parts"]) == 1]
@@ -478,7 +494,7 @@ class HashSeedEngine(Engine):
                 sideload_cli += ["--sideload-simple", f"{record['id']}:{max(0, gene[0] - 50)}-{min(len(record['seq']), gene[1] + 50)}"]
         return {"records": records, "hits": hits, "sideload_cli": sideload_cli,
                 "domain_hits": {"nrpspksdomains.hmm": domain_hits, "ksdomains.hmm": subtype_hits,
-                                "Pfam-A.hmm": pfam_hits},
+                                "Pfam-A.hmm": pfam_hits, "t2pks.hmm": t2pks_hits},
                 "domain_lengths": lengths, "extra_args": extra}
 
     # ------------------------------------------------------------ children
